@@ -1,8 +1,79 @@
 import Flatland.JsonUtil
+import Flatland.Markup.Json
+import Flatland.C12
+import Flatland.C11
 open Lean Flatland.J
 namespace Flatland.Run.C12
+open Flatland.Markup Flatland.Markup.Json Flatland.C12 Flatland.Generated.C11
 
-/-- JSON case in, JSON observation out (stub until the model of C12 is written). -/
-def run (_j : Json) : Except String Json := .error "model runner for C12 not implemented yet"
+partial def parseTree (j : Json) : Except String Tree := do
+  let name ← optOf chars (← fld j "name")
+  match (← sfld j "t") with
+  | "leaf" => return .leaf name (← cfld j "u")
+  | "bool" => return .bool name (← cfld j "true") (← cfld j "u")
+  | "array" => return .array name (← bfld j "strip") (← (← afld j "members").mapM (optOf chars))
+  | "dict" => return .dict name (← (← afld j "fields").mapM parseTree)
+  | "list" => return .list name (← (← afld j "members").mapM parseTree)
+  | t => throw s!"bad tree tag {t}"
+
+structure Render where
+  sel : Option (List Nat)      -- none: unbound
+  tag : List Char
+  kwargs : List (List Char × Val)
+  within : Option Nat          -- for <option>: index of the render that is its <select>
+  shown : List Char            -- display text (`Sequence.u`) when the bind is a whole Array
+
+def parseRender (j : Json) : Except String Render := do
+  let sel ← optOf (listOf nat) (← fld j "sel")
+  let tag0 ← cfld j "tag"
+  let within ← optOf nat (fldD j "within" Json.null)
+  let shown ← chars (fldD j "arr_shown" (Json.str ""))
+  return ⟨sel, tag0, ← parsePairs parseVal (← fld j "kwargs"), within, shown⟩
+
+def ofPair (p : Option (List Char × List Char)) : Json :=
+  match p with
+  | none => Json.null
+  | some (a, b) => Json.arr #[ofStr a, ofStr b]
+
+def run (j : Json) : Except String Json := do
+  let T := Tables.current
+  let tree ← parseTree (← fld j "tree")
+  let renders ← (← afld j "renders").mapM parseRender
+  match Gen.init T (← cfld j "markup") (← parsePairs parseCVal (← fld j "settings")) with
+  | .error e => return obj [("init_err", Json.str e.name), ("renders", Json.arr #[])]
+  | .ok g0 =>
+    let mut g := g0
+    let mut outs : Array Json := #[]
+    let mut names : Array (Option (List Char)) := #[]     -- name attribute of every render (for options)
+    for r in renders do
+      let bind := match r.sel with
+        | none => none
+        | some s => select r.shown tree [] s
+      let bindJson := match r.sel, bind with
+        | some _, some b => obj [("name", ofStr b.flatName), ("u", ofStr b.u)]
+        | _, _ => Json.null
+      match prepareTag T staticAttributeOrder g r.tag bind r.kwargs with
+      | .error e =>
+        outs := outs.push (obj [("bind", bindJson), ("err", Json.str e.name), ("out", Json.null), ("posted", Json.null)])
+        names := names.push none
+      | .ok res =>
+        let out := match Flatland.C11.renderTag attrChain voidElements g.xml r.tag res.pairs res.contents with
+          | .ok s => ofStr s
+          | .error e => Json.str ("!" ++ e.name)
+        let attrs := strAttrs res.pairs
+        let text := Flatland.C11.decodeRefs res.contents
+        let posted :=
+          if r.tag = sOption then
+            match r.within with
+            | some i => match names[i]? with
+              | some (some n) => submittedOption T n attrs text
+              | _ => none
+            | none => none
+          else submitted r.tag attrs text
+        outs := outs.push (obj [("bind", bindJson), ("err", Json.null), ("out", out), ("posted", ofPair posted),
+          ("id", ofOpt ofStr (attr? attrs sId)), ("for", ofOpt ofStr (attr? attrs sFor))])
+        names := names.push (attr? attrs sName)
+        g := { g with ctx := res.ctx }
+    return obj [("init_err", Json.null), ("renders", Json.arr outs)]
 
 end Flatland.Run.C12
